@@ -94,7 +94,10 @@ func (rm *RpcMultiplexer) CallUnaryMethod(
 	respChan := make(chan *goatorepo.Rpc, 1)
 
 	verifhook.At("mux.register.window", streamId)
-	reg := rm.registerHandler(streamId, respChan)
+	reg, err := rm.registerHandler(streamId, respChan)
+	if err != nil {
+		return nil, err
+	}
 	defer rm.unregisterHandler(streamId, reg)
 
 	rpc := goatorepo.Rpc{
@@ -103,7 +106,7 @@ func (rm *RpcMultiplexer) CallUnaryMethod(
 		Body:   body,
 	}
 
-	err := rm.rw.Write(ctx, &rpc)
+	err = rm.rw.Write(ctx, &rpc)
 	if err != nil {
 		log.Error().Err(err).Msg("CallUnaryMethod: conn.Write")
 		return nil, err
@@ -155,7 +158,10 @@ func (rm *RpcMultiplexer) NewStreamReadWriter(
 
 	respChan := make(chan *goatorepo.Rpc, 1)
 	verifhook.At("mux.register.window", streamId)
-	reg := rm.registerHandler(streamId, respChan)
+	reg, err := rm.registerHandler(streamId, respChan)
+	if err != nil {
+		return 0, nil, nil, err
+	}
 
 	teardown := func() {
 		rm.unregisterHandler(streamId, reg)
@@ -221,13 +227,19 @@ func (rm *RpcMultiplexer) handleResponse(rpc *goatorepo.Rpc) {
 	}
 }
 
-func (rm *RpcMultiplexer) registerHandler(id uint64, c chan *goatorepo.Rpc) *registration {
+func (rm *RpcMultiplexer) registerHandler(id uint64, c chan *goatorepo.Rpc) (*registration, error) {
 	rm.mutex.Lock()
 	defer rm.mutex.Unlock()
 
+	// closeError sweeps the registry exactly once; a call registering after
+	// that sweep would wait for a response that can never arrive.
+	if rm.rErr != nil {
+		return nil, rm.rErr
+	}
+
 	reg := &registration{ch: c, gone: make(chan struct{})}
 	rm.handlers[id] = reg
-	return reg
+	return reg, nil
 }
 
 func (rm *RpcMultiplexer) unregisterHandler(id uint64, reg *registration) {
